@@ -220,6 +220,17 @@ def str_token(rng, feats, opts, allow_multiline):
                 raw += b'\\x' + (b'%02x' % v if rng.random() < 0.5 else b'%02X' % v)
                 val.append(v)
                 feats.add('str:hex-escape')
+            elif r2 < 0.87:
+                # Lua 5.2 `\z`: skips the white space that follows it (line breaks included), adds nothing to the string
+                ws = bytearray()
+                for _ in range(rng.choice((0, 1, 2, 4))):
+                    ws.append(rng.choice(b'  \t\n' if (allow_multiline and opts['multiline_strings']) else b'  \t'))
+                raw += b'\\z' + bytes(ws)
+                feats.add('str:z-escape')
+                if b'\n' in ws:
+                    feats.add('str:z-escape-over-line-break')
+                if rng.random() < 0.5:
+                    break
             else:
                 raw += b'\\0'
                 val.append(0)
